@@ -111,7 +111,7 @@ class _Pattern:
         # a body that mentions none of its parameters and is a single trivial statement would match too much
         self.size = len(inner)
 
-    def call(self, name, bind, cls_name, at):
+    def call(self, name, bind, cls_name, at, caller_cls=None):
         kws = []
         for p in self.params:
             if p in bind:
@@ -120,6 +120,11 @@ class _Pattern:
                 return None
         if cls_name is None:
             func = ast.Name(name, ast.Load())
+        elif caller_cls is not None and caller_cls != cls_name:
+            # the copy sits in another class: only a static helper can be called from there, as Class.f(...)
+            if not self.static:
+                return None
+            func = ast.Attribute(value=ast.Name(cls_name, ast.Load()), attr=name, ctx=ast.Load())
         else:
             func = ast.Attribute(value=ast.Name("self", ast.Load()), attr=name, ctx=ast.Load())
         c = ast.Call(func=func, args=[], keywords=kws)
@@ -135,7 +140,7 @@ def _canon_stmts(stmts):
     return canonical(wrap).body
 
 
-def _replace_in_block(stmts, pat, name, cls_name, counter):
+def _replace_in_block(stmts, pat, name, cls_name, counter, caller_cls=None):
     """Replace runs of statements that are a copy of the pattern body (proc) - returns the new list."""
     n = len(pat.body)
     out, i = [], 0
@@ -153,7 +158,7 @@ def _replace_in_block(stmts, pat, name, cls_name, counter):
                     # the locals of the copy must not be used outside the copy
                     used_out = {x.id for s in stmts[:i] + stmts[i + n:] for x in ast.walk(s) if isinstance(x, ast.Name)}
                     if not any(isinstance(v, str) and v in used_out for k, v in bind.items() if k in pat.locals):
-                        c = pat.call(name, bind, cls_name, window[0])
+                        c = pat.call(name, bind, cls_name, window[0], caller_cls)
                         if c is not None:
                             e = ast.Expr(value=c)
                             ast.copy_location(e, window[0])
@@ -168,17 +173,17 @@ def _replace_in_block(stmts, pat, name, cls_name, counter):
             for field in ("body", "orelse", "finalbody"):
                 blk = getattr(st, field, None)
                 if isinstance(blk, list) and blk and isinstance(blk[0], ast.stmt):
-                    setattr(st, field, _replace_in_block(blk, pat, name, cls_name, counter))
+                    setattr(st, field, _replace_in_block(blk, pat, name, cls_name, counter, caller_cls))
             for h in getattr(st, "handlers", []) or []:
-                h.body = _replace_in_block(h.body, pat, name, cls_name, counter)
+                h.body = _replace_in_block(h.body, pat, name, cls_name, counter, caller_cls)
             out.append(st)
             i += 1
     return out
 
 
 class _ReplaceExpr(ast.NodeTransformer):
-    def __init__(self, pat, name, cls_name, counter):
-        self.pat, self.name, self.cls_name, self.counter = pat, name, cls_name, counter
+    def __init__(self, pat, name, cls_name, counter, caller_cls=None):
+        self.pat, self.name, self.cls_name, self.counter, self.caller_cls = pat, name, cls_name, counter, caller_cls
         self.target = pat.body[0].value
 
     def generic_visit(self, node):
@@ -187,7 +192,7 @@ class _ReplaceExpr(ast.NodeTransformer):
             try:
                 bind = {}
                 _unify(self.target, node, set(self.pat.params), set(), bind)
-                c = self.pat.call(self.name, bind, self.cls_name, node)
+                c = self.pat.call(self.name, bind, self.cls_name, node, self.caller_cls)
                 if c is not None:
                     self.counter.append(self.name)
                     return c
@@ -290,9 +295,9 @@ def reextract(cur_trees, ref_trees, max_size=400):
                     if g is None:
                         continue
                     if pat.kind == "proc":
-                        g.body = _replace_in_block(g.body, pat, name, c, counter)
+                        g.body = _replace_in_block(g.body, pat, name, c, counter, key[0])
                     else:
-                        rep = _ReplaceExpr(pat, name, c, counter)
+                        rep = _ReplaceExpr(pat, name, c, counter, key[0])
                         g.body = [rep.visit(s) for s in g.body]
                 if counter:
                     new = copy.deepcopy(rdef)
